@@ -36,7 +36,7 @@ def run_property(prop: str, tier: str) -> int:
     checker = Checker()
     checker.prop = prop
     stats = checker.prg.stats()
-    if stats["modules"] < 15 or stats["functions_and_lambdas"] < 300:
+    if stats["modules"] < 15 or stats["functions_and_lambdas"] < 200:
         print(f"ANALYSIS-ERROR unit count below floor: {stats}")
         return 2
     checker.run(rules)
